@@ -1,6 +1,9 @@
 package c13
 
 import (
+	"os"
+	"regexp"
+	"strconv"
 	"bytes"
 	"context"
 	"fmt"
@@ -49,8 +52,37 @@ type worldT struct {
 	ioerr        string // non-empty: a datastore write was made to fail (transient I/O error)
 }
 
-func startWorld(c *explore.Ctx, futureGenesis bool, daBlock time.Duration) (*worldT, *world.Fail) {
-	w := &worldT{initial: 1, futureStart: futureGenesis, errCh: make(chan error, 16)}
+// joinShape is read from node/full.go of the tree under test: FullNode.Run creates `errCh := make(chan error, N)`, hands it
+// to the loops, reads it exactly once in the select that also waits for the parent context, cancels, and then waits for
+// all workers without reading it again. The harness models exactly that join (it cannot run Run itself: libp2p does not run
+// in a bubble), with N taken from the source; any other shape is a machinery error (the model must be revisited).
+func joinShape() (capacity int, err error) {
+	dir := os.Getenv("VERIF_REPO_DIR")
+	if dir == "" {
+		dir = "/repo"
+	}
+	src, e := os.ReadFile(dir + "/node/full.go")
+	if e != nil {
+		return 0, e
+	}
+	m := regexp.MustCompile(`errCh := make\(chan error, (\d+)\)`).FindSubmatch(src)
+	if m == nil {
+		return 0, fmt.Errorf("node/full.go: `errCh := make(chan error, N)` not found")
+	}
+	capacity, _ = strconv.Atoi(string(m[1]))
+	if n := len(regexp.MustCompile(`<-\s*errCh`).FindAll(src, -1)); n != 1 {
+		return 0, fmt.Errorf("node/full.go: errCh is read %d times, the modelled join reads it once", n)
+	}
+	if !regexp.MustCompile(`(?s)case err := <-errCh:.*?cancelNode\(\).*?case <-parentCtx.Done\(\):.*?cancelNode\(\).*?wg.Wait\(\)`).Match(src) {
+		return 0, fmt.Errorf("node/full.go: the select{errCh, parentCtx.Done} -> cancelNode -> wg.Wait join is not recognised")
+	}
+	return capacity, nil
+}
+
+var errChCap = -1
+
+func startWorld(c *explore.Ctx, futureGenesis bool, daBlock time.Duration, honourCancel bool) (*worldT, *world.Fail) {
+	w := &worldT{initial: 1, futureStart: futureGenesis, errCh: make(chan error, errChCap)}
 	c.Aux = w
 	w.sched = world.NewSched(func(n int, names []string) int {
 		if w.stopped {
@@ -66,6 +98,7 @@ func startWorld(c *explore.Ctx, futureGenesis bool, daBlock time.Duration) (*wor
 	p := world.Params{InitialHeight: 1, BlockTime: blockTime, DABlockTime: daBlock, MempoolTTL: 2, GenesisTime: gen, DAStartHeight: 1}
 	w.envA = world.NewEnv()
 	w.envF = &world.Env{DA: w.envA.DA, Exec: world.NewExec(), Seq: &world.Seq{}}
+	w.envA.Exec.HonourCancel, w.envF.Exec.HonourCancel = honourCancel, honourCancel
 	hs := &world.P2PStore[*types.SignedHeader]{Gate: w.sched.Gate}
 	ds := &world.P2PStore[*types.Data]{Gate: w.sched.Gate}
 	// sequencing layer double: hands out what the reaper submitted, else an empty batch
@@ -163,10 +196,12 @@ func (w *worldT) invariants() *world.Fail {
 	if w.ioerr != "" {
 		return nil // after an injected I/O error a loop may legitimately report a fatal error; only stopping is checked
 	}
-	select {
-	case err := <-w.errCh:
-		return &world.Fail{Clause: "loop-fatal-error", Msg: "a loop reported a fatal error: " + err.Error()}
-	default:
+	if !w.stopped { // FullNode.Run reads the error channel only until it cancels; errors reported during the shutdown are nobody's
+		select {
+		case err := <-w.errCh:
+			return &world.Fail{Clause: "loop-fatal-error", Msg: "a loop reported a fatal error: " + err.Error()}
+		default:
+		}
 	}
 	var batches [][][]byte
 	for _, a := range w.envA.Seq.HandedOut {
@@ -229,6 +264,19 @@ func (w *worldT) stop() *world.Fail {
 		if b := w.sched.Blocked(); len(b) > 0 {
 			msg += fmt.Sprintf("; blocked for ever on a lock (deadlock): %v", b)
 		}
+		if len(w.errCh) == cap(w.errCh) {
+			var held []string
+			for len(w.errCh) > 0 {
+				held = append(held, (<-w.errCh).Error())
+			}
+			msg += fmt.Sprintf("; the error channel of FullNode.Run (capacity %d, read once before the cancel, never after it) is full, it holds %q — a further loop reporting an error blocks in its send for ever and wg.Wait() never returns", cap(w.errCh), held)
+			time.Sleep(blockTime / 10)
+			synctest.Wait()
+			w.sched.Drain()
+			for len(w.errCh) > 0 {
+				msg += fmt.Sprintf("; then unblocked: %q", (<-w.errCh).Error())
+			}
+		}
 		return &world.Fail{Clause: "stops-promptly", Msg: msg}
 	}
 	return nil
@@ -249,6 +297,8 @@ func (w *worldT) teardown() {
 				continue
 			case <-w.full.M.VerifDataInCh():
 				continue
+			case <-w.errCh: // a loop blocked for ever in its error report
+				continue
 			default:
 			}
 			break
@@ -267,7 +317,8 @@ func body(t *testing.T, c *explore.Ctx, horizonSteps int) (out outcome) {
 func bubble(c *explore.Ctx, horizonSteps int) (out outcome) {
 	future := c.Choose("config", 2) == 1
 	daBlock := []time.Duration{blockTime, 3 * blockTime}[c.Choose("config", 2)]
-	w, f := startWorld(c, future, daBlock)
+	honour := c.Choose("config", 2) == 1
+	w, f := startWorld(c, future, daBlock, honour)
 	if f != nil {
 		out.fail = f
 		return
@@ -276,6 +327,9 @@ func bubble(c *explore.Ctx, horizonSteps int) (out outcome) {
 	tags := []string{}
 	if future {
 		tags = append(tags, "genesis-in-the-future")
+	}
+	if honour {
+		tags = append(tags, "executor-honours-cancellation")
 	}
 	stoppedAt := -1
 	for step := 0; step <= horizonSteps; step++ {
@@ -316,7 +370,7 @@ func bubble(c *explore.Ctx, horizonSteps int) (out outcome) {
 			out.fail, out.tags = f, tags
 			return
 		}
-		out.sig = fmt.Sprintf("future=%v da=%s midstop@%d", future, daBlock, w.sched.Steps)
+		out.sig = fmt.Sprintf("future=%v da=%s honour=%v midstop@%d", future, daBlock, honour, w.sched.Steps)
 		return
 	}
 	if f := w.invariants(); f != nil {
@@ -343,7 +397,7 @@ func bubble(c *explore.Ctx, horizonSteps int) (out outcome) {
 		out.fail = &world.Fail{Clause: "engine", Msg: "the full node applied blocks but no diverted event was observed: the overlay rewrite of the sends in block/retriever.go, block/store.go is not in effect for this tree"}
 		return
 	}
-	out.sig = fmt.Sprintf("future=%v da=%s stop=%d hA=%d hF=%d incA=%d incF=%d", future, daBlock, stoppedAt, w.agg.Height(), w.full.Height(), w.agg.M.GetDAIncludedHeight(), w.full.M.GetDAIncludedHeight())
+	out.sig = fmt.Sprintf("future=%v da=%s honour=%v stop=%d hA=%d hF=%d incA=%d incF=%d", future, daBlock, honour, stoppedAt, w.agg.Height(), w.full.Height(), w.agg.M.GetDAIncludedHeight(), w.full.M.GetDAIncludedHeight())
 	return
 }
 
@@ -429,12 +483,20 @@ func TestCheck(t *testing.T) {
 	if r.RunShards(16) { // bubble-heavy: one process per shard of the exploration
 		return
 	}
+	if n, err := joinShape(); err != nil {
+		r.EngineError(err.Error())
+		r.Finish(vf.Coverage{})
+		return
+	} else {
+		errChCap = n
+	}
 	horizon := vf.Pick(r, 25, 40) // 100 ms steps
 	budgets := vf.Pick(r, map[string]int{"sched": 1, "stop": 1, "midstop": 1, "ioerr": 1, "da": 1}, map[string]int{"sched": 2, "stop": 1, "midstop": 1, "ioerr": 1, "da": 1})
 	total := vf.Pick(r, 2, 3)
 	r.Assume = []string{
 		"virtual time; scheduling granularity = environment calls (datastore, DA, executor, sequencer, P2P stores) plus gated sends into the sync loop's input channels; plain memory accesses between two gates are atomic, so DATA RACES ARE NOT DECIDED by this enumeration",
-		"the worker fan-out/join of FullNode.Run (node/full.go) is not executed here (libp2p goroutines cannot run in a bubble); the ten loops are started by the harness exactly as Run starts them and joined by the scheduler",
+		"the worker fan-out/join of FullNode.Run (node/full.go) is not executed here (libp2p goroutines cannot run in a bubble); it is modelled: the ten loops are started as Run starts them, the error channel has the capacity read from node/full.go, it is read once (first fatal error => cancel) and never after the cancel, and the join is 'every loop has returned'; a source whose join has another shape is a machinery error",
+		"executor doubles either ignore the context or (configuration) fail calls made with a cancelled context, as a remote execution client does",
 		"a stop is explored at every 100 ms boundary (combined with the other deviations) and, on otherwise default executions, at every scheduling point in the middle of the activities (then only the stop behaviour is judged); 'promptly' = within one block interval of virtual time",
 		"locks of package block are visible to the scheduler (overlay copy with a lock shim): a thread waiting for a held lock is parked, a thread that can never get its lock is reported as a deadlock",
 		"one DA submission may be answered 'timed out' or with a generic error (the retry back-off is then pending when a stop arrives)",
@@ -500,7 +562,7 @@ func TestCheck(t *testing.T) {
 		r.Finish(vf.Coverage{Evaluations: 1, DistinctNontrivial: 1})
 		return
 	}
-	st := explore.Explore(explore.Config{Budgets: budgets, Total: total, Free: []string{"config"}, Deadline: vf.Pick(r, 90*time.Second, 25*time.Minute), StuckAfter: stuckAfter, OnStuck: onStuck}, func(c *explore.Ctx) {
+	st := explore.Explore(explore.Config{Budgets: budgets, Total: total, Free: []string{"config"}, ShardDepth: 1, Deadline: vf.Pick(r, 90*time.Second, 25*time.Minute), StuckAfter: stuckAfter, OnStuck: onStuck}, func(c *explore.Ctx) {
 		o := body(t, c, horizon)
 		if o.fail != nil && o.fail.Clause == "engine" {
 			r.EngineError(o.fail.Msg)
